@@ -149,10 +149,13 @@ PROPS["C19"]["harnesses"] += [
 	H("c19_tile_index_from_blob_12", CONT, f"{VT}::tile_index::kani_harness", funcs=["TileIndex::from_blob"], bounds="every 12-byte string", sample="[u8; 12]"),
 	H("c19_tile_index_from_blob_13", CONT, f"{VT}::tile_index::kani_harness", funcs=["TileIndex::from_blob"], bounds="every 13-byte string", sample="[u8; 13]"),
 	H("c19_tile_index_from_blob_24", CONT, f"{VT}::tile_index::kani_harness", funcs=["TileIndex::from_blob"], bounds="every 24-byte string", sample="[u8; 24]", tier="thorough"),
+	H("c19_tile_index_from_blob_48", CONT, f"{VT}::tile_index::kani_harness", funcs=["TileIndex::from_blob"], bounds="every 48-byte string", sample="[u8; 48]", tier="thorough", timeout=1800),
+	H("c19_tile_index_from_blob_120", CONT, f"{VT}::tile_index::kani_harness", funcs=["TileIndex::from_blob"], bounds="every 120-byte string", sample="[u8; 120]", tier="thorough", timeout=1800),
 	H("c19_block_index_from_blob_0", CONT, f"{VT}::block_index::kani_harness", funcs=["BlockIndex::from_blob"], bounds="empty string", sample="[u8; 0]", stubs=[POW, "HashMap model"]),
 	H("c19_block_index_from_blob_32", CONT, f"{VT}::block_index::kani_harness", funcs=["BlockIndex::from_blob"], bounds="every 32-byte string", sample="[u8; 32]", stubs=[POW, "HashMap model"]),
 	H("c19_block_index_from_blob_33", CONT, f"{VT}::block_index::kani_harness", funcs=["BlockIndex::from_blob", "BlockDefinition::from_blob", "Blob::read_range"], bounds="every 33-byte string", sample="[u8; 33]", stubs=[POW, "HashMap model"]),
 	H("c19_block_index_from_blob_66", CONT, f"{VT}::block_index::kani_harness", funcs=["BlockIndex::from_blob", "BlockDefinition::from_blob", "Blob::read_range"], bounds="every 66-byte string", sample="[u8; 66]", stubs=[POW, "HashMap model"], tier="thorough"),
+	H("c19_block_index_from_blob_99", CONT, f"{VT}::block_index::kani_harness", funcs=["BlockIndex::from_blob", "BlockDefinition::from_blob", "Blob::read_range"], bounds="every 99-byte string", sample="[u8; 99]", stubs=[POW, "HashMap model"], tier="thorough"),
 	H("c19_header_v3_deserialize", CONT, f"{PT}::header_v3::kani_harness", funcs=["HeaderV3::deserialize", "PMTilesCompression::from_u8", "PMTilesType::from_u8"], bounds="every 127-byte string", sample="[u8; 127]"),
 	H("c19_header_v3_wrong_length", CONT, f"{PT}::header_v3::kani_harness", funcs=["HeaderV3::deserialize"], bounds="every string of 0..=130 bytes except 127", sample="[u8; n]"),
 	H("c19_entries_v3_any_0", CONT, f"{PT}::entries_v3::kani_harness", funcs=["EntriesV3::from_blob"], bounds="empty string", sample="[u8; 0]", expect_cover=False),
@@ -197,7 +200,7 @@ PROPS["C01"] = {
 PROPS["C16"] = {
 	"harnesses": [
 		H(f"c16_find_tile_{n}", CONT, f"{PT}::entries_v3::kani_harness", funcs=["EntriesV3::find_tile"], bounds=f"{n} sorted entries with symbolic ids (< 2^62), run lengths (u32, incl. 0 = leaf pointer), ranges; target id any u64", sample=f"{n} symbolic entries + target id", tier=t)
-		for n, t in [(0, "quick"), (1, "quick"), (2, "quick"), (3, "quick"), (5, "thorough")]
+		for n, t in [(0, "quick"), (1, "quick"), (2, "quick"), (3, "quick"), (5, "thorough"), (8, "thorough"), (13, "thorough"), (16, "thorough")]
 	] + [
 		H(f"c16_entries_decode_{n}", CONT, f"{PT}::entries_v3::kani_harness", funcs=["EntriesV3::from_blob"], bounds=f"{n} sorted entries, every field < 2^{7 if not str(n).endswith('w') else 14}, encoder may or may not use the contiguous-offset shorthand", sample=f"directory of {n} entries written by the harness' own varint encoder", tier=t, timeout=to, mem_gb=(44 if str(n) == "3" else None))
 		for n, t, to in [(1, "quick", None), ("1w", "thorough", 2400), (2, "quick", None), (3, "thorough", 2400)]
